@@ -548,6 +548,9 @@ func makeTask(s spec, w *world, rec *Rec) func() {
 		return func() {
 			ws := wordsOf(count, seed)
 			b := new(dawg.Builder)
+			if seed%3 == 0 {
+				b.Initialise()
+			}
 			for _, x := range ws {
 				if err := b.Add(x); err != nil {
 					rec.add("add error " + string(x))
@@ -568,11 +571,45 @@ func makeTask(s spec, w *world, rec *Rec) func() {
 			rec.add(string(enc))
 		}
 	case kObserver:
-		which, op, reps := p[0], p[1], p[2]
+		which, op, reps, variant := p[0], p[1], p[2], p[3]
 		return func() {
 			g := sharedGraph(w, which)
 			for rep := 0; rep < 1+reps; rep++ {
-				switch (op + rep) % 18 {
+				switch (op + rep) % 22 {
+				case 18:
+					// a query with an argument besides the shared graph: concurrent tasks ask
+					// different questions about the same value
+					ok, col := graph.IsKColorable(g, 1+variant)
+					rec.boolean("kcol", ok)
+					rec.ints("col", col)
+					if ok {
+						rec.boolean("proper", graph.IsProperColouring(g, col))
+					}
+				case 19:
+					rec.add(string(graph.MulticodeEncode(g)))
+					rec.add(graph.AdjacencyMatrixEncode(g))
+					if g.N() > 0 {
+						rec.ints("comp", graph.ConnectedComponent(g, variant%g.N()))
+					}
+				case 20:
+					// fresh views of the shared graph, one per task
+					var V []int
+					for v := variant % 2; v < g.N(); v += 1 + variant/2 {
+						V = append(V, v)
+					}
+					for _, h := range []graph.Graph{graph.InducedSubgraph(g, V), graph.Complement(g)} {
+						rec.num("N", h.N())
+						rec.num("M", h.M())
+						rec.ints("deg", h.Degrees())
+						for v := 0; v < h.N(); v++ {
+							rec.ints("nb", h.Neighbours(v))
+						}
+					}
+				case 21:
+					rec.add(graph.Graph6Encode(graph.ComplementDense(g)))
+					if g.M() <= 16 {
+						rec.add(graph.Graph6Encode(graph.LineGraphDense(g)))
+					}
 				case 16:
 					// these take an EditableGraph but are read-only queries (they work on copies)
 					if eg, ok := g.(graph.EditableGraph); ok && g.N() <= 8 && g.M() <= 12 {
@@ -625,8 +662,8 @@ func makeTask(s spec, w *world, rec *Rec) func() {
 					rec.num("degen", d)
 					rec.ints("order", ord)
 				case 8:
-					rec.ints("ipaths", graph.NumberOfInducedPaths(g, 5))
-					rec.ints("icycles", graph.NumberOfInducedCycles(g, 6))
+					rec.ints("ipaths", graph.NumberOfInducedPaths(g, 3+variant))
+					rec.ints("icycles", graph.NumberOfInducedCycles(g, 4+variant))
 				case 9:
 					rec.num("alpha", graph.IndependenceNumber(g))
 				case 10:
@@ -636,7 +673,7 @@ func makeTask(s spec, w *world, rec *Rec) func() {
 					rec.num("maxdeg", graph.MaxDegree(g))
 					rec.num("mindeg", graph.MinDegree(g))
 					if g.N() > 1 {
-						rec.num("dist", graph.Distance(g, 0, g.N()-1))
+						rec.num("dist", graph.Distance(g, variant%g.N(), g.N()-1-variant%g.N()))
 					}
 				case 12:
 					perm, orb, gens := graph.CanonicalIsomorphFull(g, nil)
@@ -648,7 +685,7 @@ func makeTask(s spec, w *world, rec *Rec) func() {
 				case 13:
 					ord := make([]int, g.N())
 					for i := range ord {
-						ord[i] = (i*3 + 1) % g.N()
+						ord[i] = (i*3 + 1 + variant) % g.N()
 					}
 					seen := map[int]bool{}
 					ok := true
@@ -667,7 +704,7 @@ func makeTask(s spec, w *world, rec *Rec) func() {
 					rec.num("greedy", k)
 					rec.ints("col", col)
 				case 14:
-					rec.ints("cliq", graph.RandomMaximalClique(g, int64(op)))
+					rec.ints("cliq", graph.RandomMaximalClique(g, int64(op+variant)))
 					rec.boolean("equal", graph.Equal(g, g))
 				default:
 					if g.M() <= 12 { // edge colouring is exponential; keep the task cheap
@@ -831,7 +868,12 @@ func makeTask(s spec, w *world, rec *Rec) func() {
 				ints.Sort(xs)
 				rec.ints("sorted", xs)
 				rec.num("max", ints.Max(append(xs, 0)))
+				rec.num("min", ints.Min(append(xs, 0)))
 				rec.num("sum", ints.Sum(xs))
+				ys := ints.Reverse(append([]int(nil), xs...))
+				rec.ints("reversed", ys)
+				rec.num("cmp", ints.Compare(xs, ys))
+				rec.boolean("prefix", ints.HasPrefix(xs, ys[:len(ys)/2]))
 			}
 		}
 	case kEditor:
@@ -1062,11 +1104,21 @@ func drawScenario(r *driver.Run, cold bool) scenario {
 			return drawSpec(r, k, thorough)
 		}
 	}
-	which := t.Draw(11)
+	which := t.Draw(12)
 	if cold {
 		which = 10
 	}
 	switch which {
+	case 11:
+		// the same query on the same shared value with different arguments: state keyed by the
+		// value alone (a memo, coalesced in-flight calls) answers one task with another's result
+		k := t.Range(2, 3)
+		s := drawSpec(r, kObserver, thorough)
+		for i := 0; i < k; i++ {
+			s.p[3] = (s.p[3] + 1) % 4
+			sc.specs = append(sc.specs, s)
+		}
+		sc.name = "one query, different arguments"
 	case 10:
 		// twins: 2-3 identical tasks. They execute the same call sequence, so under a fine-grained
 		// schedule they reach any process-wide or per-value lazily filled state at the same time.
@@ -1171,7 +1223,7 @@ func drawSpec(r *driver.Run, k int, thorough bool) spec {
 	case kDawgBuild:
 		s.p = [6]int{t.Draw(1000), t.Range(1, 40)}
 	case kObserver:
-		s.p = [6]int{t.Draw(4), t.Draw(18), t.Draw(3)}
+		s.p = [6]int{t.Draw(4), t.Draw(22), t.Draw(3), t.Draw(4)}
 	case kTSP:
 		s.p = [6]int{t.Draw(9), t.Draw(100)}
 	case kEncoders:
@@ -1531,6 +1583,11 @@ func runOne(r *driver.Run) {
 		}
 		r.Fail("race", key, "the race detector reports %d data race(s) between tasks of scenario %s under policy %s; first report:\n%s", nrep, sc.name, polName, clipReport(reports))
 	}
+	if stats.Stuck && stats.StuckArtifact {
+		// the simulator cannot decide this run: machinery limit, never a violation
+		fmt.Fprintf(os.Stderr, "SIMULATOR-LIMIT property=C19 scenario=%q policy=%s: the task holding the baton sits in a blocking operation that the instrumenter does not turn into a yielding wait (sync.WaitGroup.Wait, sync.Cond.Wait, range over a channel, select without default, ...) while another task is runnable. The check cannot explore this tree (exit 2).\n", sc.name, polName)
+		os.Exit(2)
+	}
 	if stats.Stuck {
 		r.Fail("stuck", sc.name, "no yield point was executed for a minute of wall time during the concurrent pass of scenario %s (policy %s) although every task terminated when run alone: a task is blocked for ever in a blocking operation (channel receive / select / WaitGroup ...) that only completes under some interleavings. The process cannot continue after this.", sc.name, polName)
 	}
@@ -1644,7 +1701,7 @@ func main() {
 		// worker i runs under GOMAXPROCS 16, 1, 2, 4, 16, ...: package-level state sized "one per P"
 		ProcsSwarm: []int{16, 1, 2, 4},
 		Level:      "exploration",
-		Rule: "a case is one seeded (scenario, schedule) pair: 2-6 tasks drawn from a catalogue of 19 task kinds in 10 scenarios (all shards of one search; labellers with own storage; iterators+comb; Dawg queries with own searchers on one shared Dawg next to builders; observers and read-only algorithms on one shared dense/sparse/complement/induced-view graph; AllMaximalCliques producer/consumer pairs over channels of capacity 1-3; sets/dsu/tsp/sort/graph editors/codecs/generators on own values; a checkpoint-restored iterator next to its original; twins = 2-3 identical tasks; mixed); one run in 200 is executed in a fresh process (with its reference solo results computed in yet another fresh process) ('cold start': twins, concurrent pass before the solo passes, fine-grained schedule) so that process-wide lazily initialised state is met concurrently, run as goroutines of which exactly one holds the baton; a seeded policy (coarse quanta, uniform quanta in [1,2Q] for Q in {2,10,100,1000}, <= 5 preemptions at exact yield ordinals, preemption at the j-th visit of a chosen site) decides every context switch at the generated yield points. " +
+		Rule: "a case is one seeded (scenario, schedule) pair: 2-6 tasks drawn from a catalogue of 19 task kinds in 12 scenarios (all shards of one search; labellers with own storage; iterators+comb; Dawg queries with own searchers on one shared Dawg next to builders; observers and read-only algorithms on one shared dense/sparse/complement/induced-view graph; AllMaximalCliques producer/consumer pairs over channels of capacity 1-3; sets/dsu/tsp/sort/graph editors/codecs/generators on own values; a checkpoint-restored iterator next to its original; twins = 2-3 identical tasks; the same query on the same shared graph with different arguments (k of IsKColorable, path lengths, end points, orders, seeds); mixed); one run in 200 is executed in a fresh process (with its reference solo results computed in yet another fresh process) ('cold start': twins, concurrent pass before the solo passes, fine-grained schedule) so that process-wide lazily initialised state is met concurrently, run as goroutines of which exactly one holds the baton; a seeded policy (coarse quanta, uniform quanta in [1,2Q] for Q in {2,10,100,1000}, <= 5 preemptions at exact yield ordinals, preemption at the j-th visit of a chosen site) decides every context switch at the generated yield points. " +
 			"Checked: each task's result equals its result run alone on freshly built identical values; the race detector (blind to the baton hand-over, history_size=7) reports nothing; shared values are unchanged; a complete shard set still partitions the classes. Non-trivial = at least 2 context switches; distinct = distinct hashes of the (task, site) sequence at switch points together with the results (distinct interleavings).",
 		Assumptions: []string{
 			"execution is serialised by the simulator: effects of truly parallel execution that do not need a data race (weak memory) are out of reach; the race-detector clause covers them to the extent that they need a race",
